@@ -16,7 +16,7 @@ import shutil
 
 from . import core
 
-TMP = "/tmp/c03/run"
+TMP = "/tmp/c03/run%d" % os.getpid()      # private to this (worker) process; removed at the end
 
 # ----------------------------------------------------------------------------- encoding helpers
 
@@ -262,7 +262,9 @@ def apply_history(t, h, hseed):
         return r
     if h == "norm":
         arr = t.matrix_data.toarray()
-        if (arr.sum(axis=0) == 0).any() or not np.isfinite(arr.sum(axis=0)).all():
+        with np.errstate(over="ignore"):
+            sums = arr.sum(axis=0)
+        if (sums == 0).any() or not np.isfinite(sums).all():
             return None
         return t.norm(inplace=False)
     if h == "pa":
@@ -297,7 +299,7 @@ def pick_mdmode(rng, t):
 # ----------------------------------------------------------------------------- one case
 
 
-def guard_facts(e, mdtexts):
+def guard_facts(e, mdtexts, inverse_ok=True):
     """which hypotheses of the theorems does this case meet"""
     def clean(s):
         return s != "" and s == s.strip() and not any(c in s for c in "\t\n\r")
@@ -307,7 +309,8 @@ def guard_facts(e, mdtexts):
     if e["headerKey"] is not None and e["md"] is None:
         md_ok = False          # a category the table does not have: not an export of a category
     if mdtexts is not None:
-        md_ok = all(not any(c in s for c in "\t\n\r") for s in mdtexts) and clean(e["headerValue"] or "")
+        md_ok = all(not any(c in s for c in "\t\n\r") for s in mdtexts) and clean(e["headerValue"] or "") \
+            and inverse_ok
         some_non_numeric = any(py_float(s.strip()) is None for s in mdtexts)
     return ids_ok, md_ok, some_non_numeric
 
@@ -506,7 +509,11 @@ def check_case(ctx, lib, case, tags=()):
 
     req = {"op": "roundtrip", "export": e, "formatter": fm_name, "fmtOracle": fmt_or, "parseOracle": par_or,
            "implLines": impl_lines, "results": results}
-    ids_ok, md_ok, some_non_numeric = guard_facts(e, mdtexts)
+    # "re-imported with the inverse processing function": the pair must be inverse on these values
+    inverse_ok = True
+    if mdtexts is not None:
+        inverse_ok = all(md_val(pr(txt.strip())) == v for txt, v in zip(mdtexts, e["md"]))
+    ids_ok, md_ok, some_non_numeric = guard_facts(e, mdtexts, inverse_ok)
     in_guard = ids_ok and md_ok and some_non_numeric and n >= 1 and m >= 1
     ctx.case({"export": e, "md": mdmode, "route": route, "history": hist},
              nontrivial=(n >= 1 and m >= 1 and s is not None))
@@ -543,6 +550,9 @@ def check_case(ctx, lib, case, tags=()):
         if not r["agree"]:
             ctx.diverge(case, "model differs (outside guard): %s" % r["what"], tags, detail={"model": r["model"]})
     else:
+        ctx.count("theorem-guard=%s" % ("met" if r["guard"] else "NOT-MET"))
+        if not r["guard"]:
+            ctx.diverge(case, "a case inside the property's guard does not meet the theorems' hypotheses (guardB)", tags)
         if not r["model_holds"]:
             ctx.diverge(case, "theorem model_holds contradicted by the driver", tags)
         if not r["holds"]:
@@ -698,7 +708,7 @@ def run(ctx):
         for case, tags in fixed_corpus():
             check_case(ctx, lib, case, tags)
         rng = ctx.rng
-        budget = 38 if ctx.quick() else 420
+        budget = 34 if ctx.quick() else 420
         max_n, max_m = (5, 5) if ctx.quick() else (8, 8)
         i = 0
         while ctx.time_left(budget) > 0:
